@@ -28,6 +28,7 @@ def cases(tier, rng, extended=False):
     reps = 3 if quick else 12
     if extended:
         reps *= 4
+    yield from long_cases(tier, rng)
     polls = [0, 1, 2, 3, 5, 10, 50, 500]
     times = [0, 1, 5, 20, 100, 400]
     for _ in range(reps):
@@ -48,6 +49,19 @@ def cases(tier, rng, extended=False):
                         toks.append(f"threads={rng.choice([2, 4])}")
                     pr = None if rng.random() < 0.25 else ["release"]
                     yield Case(" ".join([f"factor {n} {alg}"] + toks), k=False, tag=f"{bits}b", profiles=pr)
+
+
+def long_cases(tier, rng):
+    """inputs whose full run takes minutes: if a poll point disappears the run no longer stops
+    (watchdog) or stops late (latency bound); with the polls in place each costs well under a second"""
+    for alg, bits in (("siqs", 220), ("siqs", 260), ("mpqs", 220), ("qs", 190), ("auto", 250), ("ecm", 200)):
+        n = gen.rand_prime(rng, bits // 2) * gen.rand_prime(rng, bits - bits // 2)
+        for fl in ("abortms=300", "abortpolls=3", "abortms=1500"):
+            for th in ([], ["threads=4"]):
+                if tier == "quick" and th and fl != "abortms=300":
+                    continue
+                yield Case(" ".join([f"factor {n} {alg}", fl] + th), k=False, tag=f"long{bits}b", timeout=60,
+                           profiles=None if fl == "abortms=300" and not th else ["release"])
 
 
 def oracle(case, ans):
